@@ -11,6 +11,8 @@ import time
 import vp
 
 G7 = ["p1", "p2", "p1m1", "p1g1", "p2mm", "p2mg", "p2gg"]
+# user-built groups of spec/Wallpaper.tla (operations in another order, centred cells, a four-fold axis)
+UG = ["p2r", "p2mgr", "c1m1", "c2mm", "p4"]
 
 
 def crystal_cfg(invs, U=10, D=8):
@@ -62,12 +64,12 @@ def plans(pid, tier):
                       site=[-4, -2, 1] + ([0, 3] if th else []), orient=[1, 5] + ([14] if th else []),
                       invs=["ModelOK", "LemmasOK", "Emit"] if th else ["ModelOK", "Emit"]))
     elif pid == "C04":
-        P.append(dict(tag="sym", groups=G7, shapes="{Kite}", ax=[28],
+        P.append(dict(tag="sym", groups=G7 + UG, shapes="{Kite}", ax=[28],
                       b=[(0, 28), (0, 14), (9, 12), (12, 16)] + ([(15, 20), (0, 20)] if th else []),
                       site=[-4, -3, -1, 0, 2, 3] + ([-2, 1, 4] if th else []), orient=list(range(1, 17)),
                       invs=["ModelOK", "EmitPlacements"]))
     elif pid == "C15":
-        P.append(dict(tag="site", groups=G7, shapes="{Circle}", ax=[40], b=[(0, 40)], D=16,
+        P.append(dict(tag="site", groups=G7 + UG, shapes="{Circle}", ax=[40], b=[(0, 40)], D=16,
                       site=[-24, -17, -16, -12, -9, -8, -7, -4, -1, 0, 1, 3, 7, 8, 9, 12, 16, 17, 23, 24]
                       if not th else list(range(-24, 25)),
                       orient=list(range(1, 17)), invs=["ModelOK", "EmitPlacements"]))
@@ -172,7 +174,7 @@ def crystal_check(ctx):
     c04 = None
     if pid == "C04":
         import opt_checks
-        tr = opt_checks.aux_trace_check("C04", ["C04Frozen"], [], "real", tier, seed)
+        tr = opt_checks.aux_trace_check("C04", ["C04Frozen"], [], "real,edited,saveload", tier, seed)
         if tr["errors"]:
             vp.log("TOOL-ERROR: trace validation failed on", tr["errors"])
             return 2
@@ -390,9 +392,18 @@ def pairs_check(ctx):
     states += jr["distinct"]
     transitions += jr["generated"]
     samples.append(json.loads(obs_lines[1]))
+    # polygons with many sides: shallow corner-into-edge overlaps are below the resolution of the
+    # rounded grid; judged by the exact separating-axis value of the real outlines in f64
+    mres = os.path.join(jd, "many.json")
+    vp.pvh(["pairs-many", "--out", mres, "--tier", tier, "--seed", str(seed)], timeout=3000)
+    many = json.load(open(mres))
+    for f in many["first_failures"][:3]:
+        failures.append((f["what"], f.get("state")))
     coverage = {"states": states, "transitions": transitions, "traces_validated_against_impl": emitted + len(obs_lines) - 1,
                 "recorded_pairs_judged": {"records": len(obs_lines) - 1, "verdicts": judged,
                                           "shapes": "regular 3,4,5,6,7,8,12-gons, three radial polygons, circle, five trimers incl. the CLI default; random orientations, mirror images, distances bracketing the implementation's own contact distance"},
+                "many_sided_polygons": {"pairs": many["checked"], "asserted": many["asserted"],
+                                        "rule": "24- to 96-gons: a corner pushed into the middle of an edge by fractions of the sagitta, random placements around contact; f64 separating-axis oracle, verdicts beyond 1e-7"},
                 "samples": samples, "replayed_states": emitted, "asserted_on": tally["nontrivial"],
                 "verdicts": tally, "enumerations": runs, "exhaustive": True,
                 "rule": "every grid configuration of two copies (offsets, 3-4-5 / 5-12-13 orientations, mirror images) is replayed; "
@@ -476,7 +487,8 @@ def parser_check(ctx):
     defs = {"GDig": vp.tla_set(list(range(10)) if th else [0, 1, 2, 3, 9]),
             "GDen": vp.tla_set(list(range(10)) if th else [0, 2, 3, 4, 9]),
             "GPart": vp.tla_set([1, 2, 3] if th else [1, 3]),
-            "GVar": "{<<FALSE, 0, FALSE>>, <<TRUE, 1, FALSE>>, <<FALSE, 2, TRUE>>" + (", <<TRUE, 0, TRUE>>, <<FALSE, 1, TRUE>>}" if th else "}")}
+            "GVar": "{<<FALSE, 0, FALSE>>, <<TRUE, 1, FALSE>>, <<FALSE, 2, TRUE>>, <<FALSE, 3, FALSE>>, <<FALSE, 4, TRUE>>, <<TRUE, 5, FALSE>>, <<FALSE, 6, TRUE>>"
+                    + (", <<TRUE, 0, TRUE>>, <<FALSE, 1, TRUE>>, <<TRUE, 6, FALSE>>}" if th else "}")}
     cfg = ("SPECIFICATION Spec\nCONSTANTS\n  Digits <- GDig\n  Denoms <- GDen\n  Partners <- GPart\n"
            "  Variants <- GVar\nINVARIANTS AutomatonCorrect Emit\nCHECK_DEADLOCK FALSE\n")
     r = vp.run_tlc("GenParser", cfg, "C17_grammar", workers=12, timeout=3000, xmx="12g", deque=False,
@@ -512,7 +524,7 @@ def parser_check(ctx):
                 "other_rejected": t["junk_rejected"], "exhaustive": True,
                 "rule": "grammar strings: every component (<=3 signed terms of distinct kinds, constants d or d/e over the digit sets) in either position with a fixed partner, "
                         "x lead-plus/spacing/parenthesis variants; TLC runs the transcribed character automaton over each (one state per character) and checks Automaton = Denote; "
-                        "the real parser must return exactly Denote. other strings: every string up to length %d over a 15-symbol alphabet with junk; must not panic" % (4 if th else 3)}
+                        "the real parser must return exactly Denote. other strings: every string up to length %d over a 19-symbol alphabet with junk (unknown letters, multi-byte characters, non-ASCII numeric characters); must not panic" % (4 if th else 3)}
     rc = finish(pid, tier, seed, t0, coverage, failures,
                 ["bounded by the digit sets and the string length stated in `rule`"])
     vp.log("[C17] parser: %d grammar strings, %d other strings (%d parsed, %d rejected), %.0fs"
@@ -540,7 +552,7 @@ def lattice_check(ctx):
     th = tier == "thorough"
     defs = {"GFam": vp.tla_set(["Monoclinic", "Orthorhombic", "Hexagonal", "Tetragonal"]),
             "GAx": vp.tla_set([10, 25, 64] + ([7, 40] if th else [])),
-            "GB": vp.tla_set([(0, 10), (0, 25), (15, 20), (12, 5), (5, 12), (32, 55), (-15, 20), (-5, 12)] + ([(0, 64), (9, 12), (24, 7), (3, 4), (-24, 7)] if th else [])),
+            "GB": vp.tla_set([(0, 10), (0, 25), (15, 20), (12, 5), (5, 12), (32, 55), (-15, 20), (-5, 12), (1, 1000000), (-1, 2000000)] + ([(0, 64), (9, 12), (24, 7), (3, 4), (-24, 7)] if th else [])),
             "GFrac": vp.tla_set([-21, -8, -4, -1, 0, 3, 4, 6, 13] if th else [-21, -4, -1, 0, 3, 4, 6] + ([-16, -3, 1, 8, 20] if th else [])),
             "GOr": vp.tla_set([1, 5, 14] + ([2, 7, 11] if th else [])),
             "GK": vp.tla_set([0, 1, 2, 3] + ([4] if th else []))}
@@ -748,7 +760,7 @@ def output_check(ctx):
     for f in jr["first_failures"]:
         failures.append((f["what"], f.get("state")))
     import opt_checks
-    tr = opt_checks.aux_trace_check("C11", ["C11SameDone"], ["C11Same"], "saveload", tier, seed)
+    tr = opt_checks.aux_trace_check("C11", ["C11SameDone", "C11Fresh"], ["C11Same"], "saveload", tier, seed)
     if tr["errors"]:
         vp.log("TOOL-ERROR: trace validation failed on", tr["errors"])
         return 2
@@ -765,7 +777,7 @@ def output_check(ctx):
                 "sets": r["defs"], "exhaustive": True,
                 "rule": "svg: every grid state (7 groups, 4 shapes, rectangular and sheared cells, rational orientations), as hard and as LJ state: the <use href=#mol> matrices must be TLC's placements and their 8 nearest images as a multiset, the <use href=#cell> ones the 9 lattice translations; "
                         "json: score bits, placement bits and re-serialisation identical after one write/read; "
-                        "continuation: stage 2 from the JSON copy must repeat stage 2 from the state itself evaluation by evaluation (TLC formulas C11Same, C11SameDone)"}
+                        "continuation: stage 2 from the JSON copy must repeat stage 2 from the state itself evaluation by evaluation (TLC formulas C11Same, C11SameDone); every score of the reference continuation equals the score of a fresh copy of the state at that moment (C11Fresh)"}
     rc = finish(pid, tier, seed, t0, coverage, failures,
                 ["float fidelity off the grid (17-digit values, subnormals, -0.0, 1e+-300) is driven by the harness and decided by bit equality; TLC cannot enumerate floats",
                  "the SVG is compared on the transforms it places the shape at, not on colours or view box"])
